@@ -298,6 +298,30 @@ class FnEmitter:
             b = contract_block(section)
             return b
 
+        # R9: a parameter with the function's own name is alpha-renamed (Verus cannot attach
+        # `ensures` to `fn f(f: T)`); every identifier token `f` other than the fn name is renamed.
+        fname_tok = next_sig(toks, kfn)
+        fname = toks[fname_tok].text
+        popen = None
+        for k in range(fname_tok + 1, bopen):
+            if toks[k].kind == 'p' and toks[k].text == '(':
+                popen = k
+                break
+        if popen is not None:
+            pclose = match_close(toks, popen)
+            is_param = any(toks[k].kind == 'id' and toks[k].text == fname and toks[next_sig(toks, k)].text == ':'
+                           for k in range(popen, pclose))
+            if is_param:
+                if any(t.kind == 'id' and t.text == fname + '_' for t in toks):
+                    raise Undecided('cannot alpha-rename parameter %s in %s' % (fname, key))
+                for k, t in enumerate(toks):
+                    if t.kind == 'id' and t.text == fname and k != fname_tok and k <= bclose:
+                        nx = next_sig(toks, k)
+                        if self.mode == 'stub' and k > bopen:
+                            continue
+                        edits.append((t.start, t.end, fname + '_', None))
+                self.counts['R9'] = self.counts.get('R9', 0) + 1
+
         # R7: name the result
         arrow = None
         depth = 0
@@ -326,6 +350,10 @@ class FnEmitter:
 
         # signature contract: inserted just before body '{'
         sigblock = block_text('sig')
+        if self.mode == 'stub':
+            # clauses that are assumed about the callee but cannot be proved in its own unit
+            # (they only name the function's own result: "pure function" assumptions)
+            sigblock = sigblock + block_text('sig-stub-extra')
         edits.append((toks[bopen].start, toks[bopen].start, ('\n', sigblock, ''), 'block'))
 
         if self.mode == 'stub':
